@@ -287,6 +287,15 @@ func contains(l []string, x string) bool {
 // compareState: the three views of serving-side interest agree with each other and with the reference.
 func compareState(w *world, m *model, rs realState) (out []finding) {
 	add := func(k, f string, a ...any) { out = append(out, finding{k, fmt.Sprintf(f, a...)}) }
+	if m.role == "client" {
+		// the duplicate filter remembers exactly the ids of the messages handed to a handler so far (fewer than
+		// DedupSize of them arrive, so nothing may have been evicted): a forgotten id is a replay waiting to be accepted
+		for _, l := range clientLabels() {
+			if has := pubsub.VerifDedupHas(w.svc, msgId(l)); has != m.seen[l] {
+				add("dedup-filter-disagrees", "message id %s: duplicate filter remembers it=%v, the model (delivered before) says %v", l, has, m.seen[l])
+			}
+		}
+	}
 	perSpace := map[string]map[string]int{} // space -> pattern -> number of stream records holding it
 	for id, rec := range rs.st.Streams {
 		name := w.nameOf(id)
